@@ -2,6 +2,7 @@ import Octo.Lemmas.AggArray
 import Octo.Lemmas.AggDistinct
 import Octo.Lemmas.AggFloat
 import Octo.Lemmas.AggOracle
+import Octo.Lemmas.AggEmpty
 /-!
 # C14 — Aggregates are invariant under retraction histories
 
@@ -91,6 +92,22 @@ theorem oracle_multiset_is_net (h : Hist) (bags : List (List Value)) (hb : bagsO
     (i : Nat) (hi : i < h.length) : ∃ M, bags[i]? = some M ∧ IsNet M (h.take (i + 1)) := by
   have hv : ValidHist h := (oracle_accepts_iff_valid h).mp (by rw [hb]; rfl)
   exact ⟨_, bagsOf_get h [] bags hb i hi, bagRun_isNet (validHist_take hv _)⟩
+
+/-- why the property needs `M ≠ ∅`: after a valid history with an *empty* net multiset, `Trigger` of
+    min, max and avg over Int/Duration panics (nil interface conversion / integer division by zero),
+    also behind the `Distinct` wrapper — the group-by nodes must not call it then -/
+theorem trigger_panics_on_empty (k : Kind) (hk : k = .min ∨ k = .max ∨ k = .avgInt ∨ k = .avgDur) (d : Bool)
+    (h : Hist) (hv : ValidHist h) (hM : IsNet [] h) :
+    (mkAgg k d).trigger ((mkAgg k d).run h).1 = .panic := by
+  rcases hk with rfl | rfl | rfl | rfl <;> cases d
+  · exact AggProof.empty_panics (fullProof .min false) minProof_panics h hv (fun _ _ => trivial) hM
+  · exact AggProof.empty_panics (fullProof .min true) (distinct_panics _ minProof_panics) h hv (fun _ _ => trivial) hM
+  · exact AggProof.empty_panics (fullProof .max false) maxProof_panics h hv (fun _ _ => trivial) hM
+  · exact AggProof.empty_panics (fullProof .max true) (distinct_panics _ maxProof_panics) h hv (fun _ _ => trivial) hM
+  · exact AggProof.empty_panics (fullProof .avgInt false) avgIntProof_panics h hv (fun _ _ => trivial) hM
+  · exact AggProof.empty_panics (fullProof .avgInt true) (distinct_panics _ avgIntProof_panics) h hv (fun _ _ => trivial) hM
+  · exact AggProof.empty_panics (fullProof .avgDur false) avgDurProof_panics h hv (fun _ _ => trivial) hM
+  · exact AggProof.empty_panics (fullProof .avgDur true) (distinct_panics _ avgDurProof_panics) h hv (fun _ _ => trivial) hM
 
 /-! ## The full-strength statement -/
 
@@ -191,6 +208,10 @@ example : Admissible .sumFloat one ∧ ¬ Admissible .sumFloat pInf := by
   constructor <;> simp [Admissible, FiniteF, one, pInf, floatField, F64.isFinite, F64.mag, F64.signBit, F64.expMask]
 example : (mkAgg .sumInt false).trigger ((mkAgg .sumInt false).run [(false, .int 9223372036854775807), (false, .int 1)]).1
     = .val (.int (-9223372036854775808)) := by rfl
+/-- the hypotheses of `trigger_panics_on_empty` are met: add then retract leaves the empty multiset -/
+example : ValidHist [(false, i1), (true, i1)] ∧ IsNet [] [(false, i1), (true, i1)] :=
+  ⟨(oracle_accepts_iff_valid _).mp (by decide),
+   (by have h := bagRun_isNet (h := [(false, i1), (true, i1)]) ((oracle_accepts_iff_valid _).mp (by decide)); exact h)⟩
 /-- an invalid history is rejected -/
 example : ¬ ValidHist [(false, i1), (true, i2)] := by
   rw [← oracle_accepts_iff_valid]; decide
